@@ -3,7 +3,9 @@ package props
 import (
 	"fmt"
 	"math"
+	"net/url"
 	"reflect"
+	"time"
 	"unsafe"
 
 	fpgo "github.com/TeaEntityLab/fpGo/v2"
@@ -377,6 +379,43 @@ type c01BadPtrStringer struct{ n *int }
 
 func (b *c01BadPtrStringer) String() string { return fmt.Sprint(*b.n) } // nil dereference through a pointer receiver
 
+type c01NamedPtr *int
+
+type c01NilTolerant struct{ n int }
+
+func (p *c01NilTolerant) String() string {
+	if p == nil {
+		return "(no node)"
+	}
+	return "node"
+}
+
+type c01ValStringer struct{ n int }
+
+func (v c01ValStringer) String() string { return "value receiver" } // calling it through a nil *c01ValStringer panics
+
+func c01TwinStruct1() any {
+	type Ref struct{ N int }
+	return Ref{1}
+}
+
+func c01TwinNilPtr1() any {
+	type Ref *int
+	var r Ref
+	return r
+}
+
+func c01TwinPtr2() any {
+	type Handle *int
+	n := 3
+	return Handle(&n)
+}
+
+func c01TwinStruct2() any {
+	type Handle struct{ S string }
+	return Handle{"x"}
+}
+
 func runC01(c *core.Ctx) {
 	e := &c01Env{c: c}
 	i1, i2 := 7, 9
@@ -402,6 +441,9 @@ func runC01(c *core.Ctx) {
 		p1, &p1, nilInt, pnil, nilS, s1, &s1, (*[]int)(nil), &nilSlice, (*any)(nil), up, unsafe.Pointer(nil), nilErr, fmt.Errorf("e"),
 		fpgo.None, fpgo.Maybe.Just(1), fpgo.Maybe.Just(nil), fpgo.Maybe.Just(fpgo.Maybe.Just("x")), fpgo.JustGenerics(5), fpgo.JustGenerics[*int](nil),
 		c01BadErr{}, &c01BadErr{}, c01BadStringer{}, &c01BadStringer{}, &c01BadPtrStringer{}, error(c01BadErr{}), fmt.Stringer(c01BadStringer{}),
+		// distinct types that PRINT alike (function-local types of the same name): a struct then a nil named pointer, and a
+		// named pointer then a struct - anything keyed by the type's name instead of the type confuses them
+		c01TwinStruct1(), c01TwinNilPtr1(), c01TwinPtr2(), c01TwinStruct2(), c01TwinNilPtr1(), c01TwinStruct1(),
 		reflect.ValueOf(1), // (no reflect.Type: a copied runtime type descriptor is invalid by construction of the Go runtime, not of fpGo)
 	}
 	for i, v := range corpus {
@@ -468,6 +510,13 @@ func runC01(c *core.Ctx) {
 	c01Typed(e, "*struct", []*c01S{nil, s1, {}}, &c01S{A: 5})
 	c01Typed(e, "*[]int", []*[]int{nil, &nilSlice, {1}}, &[]int{3})
 	c01Typed(e, "unsafe.Pointer", []unsafe.Pointer{nil, up}, unsafe.Pointer(&i1))
+	c01Typed(e, "named pointer type", []c01NamedPtr{nil, c01NamedPtr(&i1)}, c01NamedPtr(&i2))
+	// typed nil pointers whose type has a String() method (absent all the same: ToString is "<nil>", nothing is called on them)
+	c01Typed(e, "*time.Location", []*time.Location{nil, time.UTC}, time.Local)
+	c01Typed(e, "*url.URL", []*url.URL{nil, {Scheme: "http", Host: "h"}}, &url.URL{})
+	c01Typed(e, "*nilTolerantStringer", []*c01NilTolerant{nil, {}}, &c01NilTolerant{})
+	c01Typed(e, "fmt.Stringer", []fmt.Stringer{nil, (*c01NilTolerant)(nil), (*url.URL)(nil), time.UTC}, fmt.Stringer(time.UTC))
+	c01Typed(e, "valueReceiverStringer*", []*c01ValStringer{nil, {}}, &c01ValStringer{})
 	c01Typed(e, "error", []error{nil, fmt.Errorf("x")}, fmt.Errorf("fb"))
 	c01Typed(e, "any", []any{nil, 1, nilInt, p1, "s"}, any("fb"))
 	c01Typed(e, "error(hostile)", []error{c01BadErr{}, &c01BadErr{}}, fmt.Errorf("fb"))
